@@ -76,7 +76,7 @@ def gen_ordinal(rng, n, pnan):
     nlev = rng.randint(2, 6)
     lv = [rng.randrange(nlev) for _ in range(n)]
     order = LETTERS[:nlev]
-    style = rng.choice(['plain', 'plain', 'never', 'reversed', 'numstr', 'numcode'])
+    style = rng.choice(['plain', 'plain', 'never', 'reversed', 'numstr', 'numcode', 'numcode'])
     if style == 'numcode':
         # numeric codes (held as numbers in the data) ranked in an arbitrary, non-sorted order
         codes = list(range(nlev))
@@ -397,7 +397,10 @@ def hist_c06(seed, cls=None):
 
 def hist_c07(seed, cls=None):
     rng = random.Random(seed)
-    spec = random_object_spec(rng, cls)
+    if cls is None and rng.random() < 0.1:
+        spec = missing_like_zero_spec(rng)      # missing values end inside a bucket of quantiles (dropna=True)
+    else:
+        spec = random_object_spec(rng, cls)
     o, X, y, kw = E.build(spec)
     h = _new('c07', seed, spec)
     ok = h.fit(1, o, X, y, kw, method='fit_transform')
@@ -443,7 +446,16 @@ def hist_c16(seed, cls=None):
     X = h.last_X
     h.transform(1, X.copy(deep=True), seen=True, label='train')
     if rng.random() < 0.35:
-        _random_edits(rng, h, 1, X, n_edits=1)
+        o1 = h.objs[1]
+        holes = [f for f in o1.features if f in getattr(o1, 'qualitative_features', []) and not o1.features_dropna.get(f, True)
+                 and any(isinstance(k, str) and k == h.str_nan for k in o1.values_orders[f])
+                 and any(not (isinstance(k, str) and k == h.str_nan) for k in o1.values_orders[f])]
+        if holes and rng.random() < 0.6:
+            # the missing values of a feature that kept them apart are sent, by hand, into an existing group
+            f = rng.choice(holes)
+            h.update(1, f, 'group', float('nan'), rng.choice([k for k in o1.values_orders[f] if not (isinstance(k, str) and k == h.str_nan)]))
+        else:
+            _random_edits(rng, h, 1, X, n_edits=1)
     h.summary(1)
     for f in list(h.objs[1].features):
         h.summary(1, f)
